@@ -525,6 +525,38 @@ def run(ctx, report):
                                  'the operands are encoded exchanged' % (row.name, [x for x in row.rm if x in IMM_KINDS], idx, d), where(arch, br),
                                  witness="asm('jmpf 2, 1') == ea 01 00 00 00 02 00 while dis(ea 02 00 00 00 01 00) prints 'jmpf 2, 1'")
 
+    # ---------------------------------------------------------------- D8 the assembler does not offer (opcode, mandatory prefix) pairs the decoder rejects
+    R8 = report.rule('C02.D8', 'every predicate by which _dis rejects an MMX/SSE (opcode, mandatory prefix) pair is applied to the assembler\'s candidates', floor=1)
+    dis_ = arch.method('x86_mn', '_dis')
+    guards = [n for n in walk_no_nested(dis_) if isinstance(n, ast.If) and u(n.test) == 'm.modifs[mmx]' and any(isinstance(x, ast.Return) and (x.value is None or u(x.value) == 'None') for x in ast.walk(n))]
+    preds = set()
+    for g in guards:
+        for inner in ast.walk(g):
+            if isinstance(inner, ast.If) and any(isinstance(x, ast.Return) and (x.value is None or u(x.value) == 'None') for x in inner.body):
+                for c_ in ast.walk(inner.test):
+                    if isinstance(c_, ast.Call) and isinstance(c_.func, ast.Name) and c_.func.id in arch.funcs:
+                        preds.add(c_.func.id)
+        for a_ in ast.walk(g):
+            if isinstance(a_, ast.Assign) and isinstance(a_.value, ast.Call) and isinstance(a_.value.func, ast.Name) and a_.value.func.id in arch.funcs:
+                preds.add(a_.value.func.id)
+    if not preds:
+        raise AnalysisError('_dis: the MMX/SSE rejection guards call no module-level predicate (expected mmx_set_suffix at least)')
+    asm_txt_calls = set(c_.func.id for c_ in ast.walk(ac) if isinstance(c_, ast.Call) and isinstance(c_.func, ast.Name))
+    # module-level construction of the name table the assembler starts from
+    mod_calls = set()
+    for st in arch.tree.body:
+        if isinstance(st, (ast.For, ast.Assign)):
+            for c_ in ast.walk(st):
+                if isinstance(c_, ast.Call) and isinstance(c_.func, ast.Name):
+                    mod_calls.add(c_.func.id)
+    for pr in sorted(preds):
+        inst = 'predicate %s' % pr
+        if pr in asm_txt_calls or pr in mod_calls:
+            R8.ok(inst, sample='%s is consulted by the decoder and by the assembler (%s)' % (pr, 'asm_candidates' if pr in asm_txt_calls else 'name table'))
+        else:
+            R8.violation(inst, 'asm-validity:%s' % pr, '_dis rejects (opcode, mandatory prefix) pairs with %s, which the assembler never consults: it offers encodings the '
+                         'disassembler reports as no instruction' % pr, where(arch, ac), witness="asm('andss xmm0, xmm1') == f3 0f 54 c1")
+
 
 def imm_accumulate_rule(R4, att, pa):
     """Grammar actions that combine two sub-results which can both carry a number (imm) must add the numbers."""
@@ -618,6 +650,7 @@ def _conds(node, fn):
 
 
 MUTANTS = [
+    ('asm-offers-undefined-sse', 'miasmx/arch/ia32_arch.py', "        candidate = [c for c in candidate\n                     if not (c.modifs[mmx] and mmx_undefined_form(c, prefix))]\n", "", 'C02.D8'),
     ('far-imm-last-operand', 'miasmx/arch/ia32_arch.py', "                            [imm, ims, u08, s08, u16, s16, u32, s32]]) > 1:\n                        index_im = 0\n", "                            [imm, ims, u08, s08, u16, s16, u32, s32]]) > 1:\n                        index_im = -1\n", 'C02.D7'),
     ('drop-check', 'miasmx/arch/ia32_arch.py',
      "                    v = check_imm_size(args_sample[index_im][x86_afs.imm], size)\n                    if v is None:\n                        log.debug(\"cannot encode this val in size %s %x!\", size, args_sample[index_im][x86_afs.imm])\n                        good_c= False\n                        break\n",
